@@ -208,7 +208,7 @@ func Harness_call() {
 		args[i] = vrt.IntRange("a"+string(rune('0'+i)), 0, 3)
 	}
 	fnForm := lst(sym("fn"), params, body)
-	switch vrt.Concrete(vrt.Choice("how", 5)) {
+	switch vrt.Concrete(vrt.Choice("how", 9)) {
 	case 0: // direct call
 		f = List{Val: append([]MalType{fnForm}, args...)}
 	case 1: // through apply
@@ -217,8 +217,16 @@ func Harness_call() {
 		f = lst(sym("do"), lst(sym("defmacro"), sym("m"), fnForm), List{Val: append([]MalType{sym("m")}, args...)})
 	case 3: // through map
 		f = lst(sym("map"), fnForm, List{Val: append([]MalType{sym("list")}, args...)})
-	default: // let with the parameter list as binding vector
+	case 4: // let with the parameter list as binding vector
 		f = lst(sym("let"), params, body)
+	case 5: // as the body of a future: applied on another host thread, outside any EVAL
+		f = lst(sym("deref"), lst(sym("future-call"), fnForm))
+	case 6: // as the update function of swap!
+		f = List{Val: append([]MalType{sym("swap!"), lst(sym("atom"), 0), fnForm}, args...)}
+	case 7: // as the update function of update
+		f = List{Val: append([]MalType{sym("update"), HashMap{Val: map[string]MalType{"k": 1}}, "k", fnForm}, args...)}
+	default: // memoized
+		f = List{Val: append([]MalType{lst(sym("memoize"), fnForm)}, args...)}
 	}
 	if vrt.Bool("wrapped") {
 		f = lst(sym("try"), f, lst(sym("catch"), sym("e"), NewKeyword("caught")))
